@@ -112,6 +112,12 @@ theorem typed_roundtrip_generated : ∀ p ∈ Gen.schemas, ∀ v bs,
     encT p.2 v = some bs → bs.length < 2 ^ 64 → decT p.2 bs = .ok v :=
   fun p hp v bs => typed_roundtrip p.2 (sound_schemas p hp) v bs
 
+/-- even for the non-canonical codecs the re-encoding is a fixed point: whatever any of the 52 schemas decodes, the
+encoding of that value decodes to the same value again (decode ∘ encode ∘ decode = decode). -/
+theorem typed_reencoding_stable : ∀ p ∈ Gen.schemas, ∀ bs v bs',
+    decT p.2 bs = .ok v → encT p.2 v = some bs' → bs'.length < 2 ^ 64 → decT p.2 bs' = .ok v :=
+  fun p hp _ v bs' _ he hl => typed_roundtrip p.2 (sound_schemas p hp) v bs' he hl
+
 /-- the full statement: every generated wire/disk schema accepts only canonical bytes.  FALSE of the code that exists
 (see the three `_counterexample`s); kept visible. -/
 def typed_canonical_generated_statement : Prop :=
